@@ -132,6 +132,14 @@ CLAIMS.update({
    ref="DESIGN.md section 4 C14"),
 })
 
+CLAIMS.update({
+ "C01": dict(
+   technique="path-wise delta counting (Euler ledger) over the structured AST with callee summaries; sibling-branch agreement; permutation-parity rule on the winding decisions; stale-cache effect rule (node-order writers vs normal refreshers) over the call graph",
+   text="Decides structural necessary conditions of C01 on every path and in all six configurations: split_edge / merge_edge / swap_edge change the numbers of nodes and faces by (+1,+2) / (-1,-2) / (0,0) on every path (dV - dF/2 = 0, branches agree, early exits precede any change; replace_node summarised from its own body); delete_* reset the element and queue its slot unconditionally, add_* pop-or-append and set id/used flag in both branches; add_face's two branches register the face on the edges (n1,n2),(n2,n3),(n3,n1), refresh normal/area and set the owner, delete_face looks up the same pairs; split_edge's new faces are even/odd permutations of the replaced triangle as tested against the cached normal of the right face; swap_edge winds each new face against a surviving neighbour across one of its own edges; whenever a face's node order may change the cached normal is refreshed before control leaves the mesh classes (found D19); rebase regenerates the edge set whenever something was compacted, renumbers and remaps.",
+   note="Not decided: that every edge stays 2-manifold and the volume positive after arbitrary operation histories, adequacy of can_be_merged's link condition, geometry-dependent orientation (the sign tests themselves). The ledger counts calls, it does not prove they are applied to the right elements.",
+   ref="DESIGN.md section 4 C01"),
+})
+
 NA_DEFAULT = "checker not finished yet (see DESIGN.md section 4 for the planned clauses)"
 NA = {}
 
